@@ -35,19 +35,29 @@ def me():
 
 @spec
 def zk_same(p):
-    return (zk_exists(p) == old(zk_exists(p)) and zk_owner(p) == old(zk_owner(p)) and
-            zk_content(p) == old(zk_content(p)))
+    return ((not zk_exists(p) and not old(zk_exists(p))) or
+            (zk_exists(p) and old(zk_exists(p)) and zk_owner(p) == old(zk_owner(p)) and
+             zk_content(p) == old(zk_content(p))))
+
+
+@spec
+def gone_or_same(p):
+    """Between the calls of one request a node may go away (owner deleted it / session expired): unchanged or gone."""
+    return (not zk_exists(p) and old(zk_exists(p))) or zk_same(p)
 
 
 @spec
 def others_same(path):
-    return forall(lambda p: implies(p != path, zk_same(p)), 'Str')
+    return forall(lambda p: implies(p != path, gone_or_same(p)), 'Str')
 
 
 @spec
 def foreign_untouched():
-    """C17, first sentence: a node that exists and is owned by another session is neither modified nor deleted."""
-    return forall(lambda p: implies(old(zk_exists(p)) and old(zk_owner(p)) != me(), zk_same(p)), 'Str')
+    """C17: a node that exists and is owned by another session is not modified; it may go away by itself (its owner
+    deleted it, its session expired) and only then be replaced by a node of this session.  That this service does not
+    delete it is the call-site clause delete_own_only."""
+    return forall(lambda p: implies(old(zk_exists(p)) and old(zk_owner(p)) != me(),
+                                    gone_or_same(p) or (zk_exists(p) and zk_owner(p) == me())), 'Str')
 
 
 # ------------------------------------------------------------------ dependency contracts (assumed)
@@ -62,24 +72,25 @@ contract('treadmill.zkutils:create',
          raises={'NodeExistsError': ['old(zk_exists(path))', 'forall(lambda p: zk_same(p), "Str")']},
          ensures=['not old(zk_exists(path))', 'zk_exists(path)', 'zk_content(path) == data',
                   'zk_owner(path) == (zkclient.client_id[0] if ephemeral else 0)', 'others_same(path)'],
-         modifies=['zk'], assumed=True,
+         modifies=['zk', 'zk_env'], assumed=True,
          note='kazoo create: fails with NodeExistsError iff the node exists; an ephemeral node belongs to the '
               'creating session')
 contract('treadmill.zkutils:get_with_metadata',
          types={'zkclient': 'KazooClient', 'path': 'Str', 'return': 'Tuple[Any,ZnodeStat]'},
-         raises={'NoNodeError': ['not zk_exists(path)']},
-         ensures=['zk_exists(path)', 'result[0] == zk_content(path)', 'result[1].owner_session_id == zk_owner(path)'],
-         modifies=['alloc'], assumed=True, note='read; NoNodeError exactly when the node is absent')
+         raises={'NoNodeError': ['not zk_exists(path)', 'forall(lambda p: zk_same(p), "Str")']},
+         ensures=['zk_exists(path)', 'result[0] == zk_content(path)', 'result[1].owner_session_id == zk_owner(path)',
+                  'forall(lambda p: zk_same(p), "Str")'],
+         modifies=['alloc', 'zk', 'zk_env'], assumed=True, note='read; NoNodeError exactly when the node is absent')
 contract('treadmill.zkutils:update',
          types={'zkclient': 'KazooClient', 'path': 'Str', 'data': 'Any', 'return': 'Any'},
          raises={'NoNodeError': ['not old(zk_exists(path))', 'forall(lambda p: zk_same(p), "Str")']},
          ensures=['old(zk_exists(path))', 'zk_exists(path)', 'zk_content(path) == data',
                   'zk_owner(path) == old(zk_owner(path))', 'others_same(path)'],
-         modifies=['zk'], assumed=True, note='kazoo set: changes the content only')
+         modifies=['zk', 'zk_env'], assumed=True, note='kazoo set: changes the content only')
 contract('treadmill.zkutils:ensure_deleted',
          types={'zkclient': 'KazooClient', 'path': 'Str', 'recursive': 'Bool'},
          ensures=['not zk_exists(path)', 'others_same(path)'],
-         modifies=['zk'], assumed=True, note='delete, absent node tolerated')
+         modifies=['zk', 'zk_env'], assumed=True, note='delete, absent node tolerated')
 contract(P + '._watch', types={'rsrc_id': 'Str', 'path': 'Str'}, assumed=True,
          note='installs a DataWatch that re-queues the request when the node goes away; no effect on the store')
 contract('lib:PresenceResourceService.retry_request', types={'$params': ['self', 'rsrc_id']},
@@ -89,19 +100,33 @@ contract('lib:PresenceResourceService.retry_request', types={'$params': ['self',
 site(P + '._safe_create', 'create', asserts=[
     ('C17', 'arg_ephemeral', 'ephemeral_node')])
 site(P + '._safe_create', 'update', asserts=[
-    ('C17', 'zk_exists(path) and zk_owner(path) == me()', 'update_own_only')])
+    ('C17', 'not (zk_exists(path) and zk_owner(path) != me())', 'update_own_only')])
 site(P + '._safe_delete', 'ensure_deleted', asserts=[
-    ('C17', 'zk_exists(path) and zk_owner(path) == me()', 'delete_own_only')])
+    ('C17', 'not (zk_exists(path) and zk_owner(path) != me())', 'delete_own_only')])
+
+# the same two clauses wherever else the service might reach the write primitives (going away "by itself" cannot be told
+# from a deletion in a two-state postcondition, so deletions are pinned at their call sites)
+for _caller in ('.on_delete_request', '.on_create_request', '._safe_create'):
+    site(P + _caller, 'ensure_deleted', asserts=[
+        ('C17', 'not (zk_exists(arg_path) and zk_owner(arg_path) != me())', 'delete_own_only')])
+for _caller in ('.on_delete_request', '.on_create_request', '._safe_delete'):
+    site(P + _caller, 'update', asserts=[
+        ('C17', 'not (zk_exists(arg_path) and zk_owner(arg_path) != me())', 'update_own_only')])
+    site(P + _caller, 'create', asserts=[('C17', 'arg_ephemeral', 'ephemeral_node')])
 
 # ------------------------------------------------------------------ the two guarded primitives
+GONE_RAISE = {'NoNodeError': [('C17', 'foreign_untouched()'),
+                              ('C17', 'forall(lambda p: implies(not gone_or_same(p), zk_exists(p) and zk_owner(p) == me()), "Str")')]}
 contract(P + '._safe_create', types={'rsrc_id': 'Str', 'path': 'Str', 'data': 'Any', 'return': 'Bool'},
          requires=['me() > 0'],
+         # the node can go away between the read and the update: kazoo's NoNodeError escapes and the request fails
+         raises=GONE_RAISE,
          ensures=[('C17', 'foreign_untouched()', 'foreign_untouched'),
                   # success: the node is there, ephemeral, ours, with the requested content
                   ('C17', 'implies(result, zk_exists(path) and zk_owner(path) == me() and zk_content(path) == data)',
                    'registered_own'),
                   # failure: somebody else's node is in the way (or it vanished meanwhile); nothing was changed
-                  ('C17', 'implies(not result, forall(lambda p: zk_same(p), "Str"))', 'failed_nothing'),
+                  ('C17', 'implies(not result, forall(lambda p: gone_or_same(p), "Str"))', 'failed_nothing'),
                   ('C17', 'others_same(path)', 'only_this_path')],
          modifies=['zk', 'alloc'], props=['C17'])
 contract(P + '._safe_delete', types={'path': 'Str'},
@@ -109,6 +134,8 @@ contract(P + '._safe_delete', types={'path': 'Str'},
          ensures=[('C17', 'foreign_untouched()', 'foreign_untouched'),
                   ('C17', 'implies(old(zk_exists(path)) and old(zk_owner(path)) == me(), not zk_exists(path))',
                    'own_deleted'),
+                  # a removal never creates or rewrites anything
+                  ('C17', 'forall(lambda p: gone_or_same(p), "Str")', 'nothing_written'),
                   ('C17', 'others_same(path)', 'only_this_path')],
          modifies=['zk', 'alloc'], props=['C17'])
 
@@ -121,6 +148,17 @@ def rec(self, a, p):
 
 
 @spec
+def ep_path(app, e):
+    """The endpoint node of one endpoint record (as on_create_request builds it)."""
+    return zk_path("endpoint", app, e.get("proto", "tcp"), e.get("name", str(e["port"])))
+
+
+@spec
+def attributed(self, app, p, r):
+    return rec(self, app, p) and self.presence[app][p] == r
+
+
+@spec
 def was_for(self, a, p, r):
     """At the start of the request p was recorded for instance a on behalf of container r."""
     return old(rec(self, a, p)) and old(self.presence[a][p]) == r
@@ -130,9 +168,10 @@ contract(P + '.on_delete_request', types={'rsrc_id': 'Str', 'return': 'Bool', 't
                                           'app_name': 'Str'},
          requires=['me() > 0'],
          ensures=[('C17', 'foreign_untouched()', 'foreign_untouched'),
+                  ('C17', 'forall(lambda p: gone_or_same(p), "Str")', 'nothing_written'),
                   # only nodes registered for THIS container are removed: the clean-up of an old container never
                   # unregisters a newer one of the same instance
-                  ('C17', 'forall(lambda p: implies(not was_for(self, str_fn("app_name", rsrc_id), p, rsrc_id), zk_same(p)), '
+                  ('C17', 'forall(lambda p: implies(not was_for(self, str_fn("app_name", rsrc_id), p, rsrc_id), gone_or_same(p)), '
                           '       "Str")', 'only_registered_for_this'),
                   ('C17', 'forall(lambda a, p: implies(old(rec(self, a, p)) and '
                           '       not (a == str_fn("app_name", rsrc_id) and old(self.presence[a][p]) == rsrc_id), '
@@ -143,8 +182,8 @@ contract(P + '.on_delete_request', types={'rsrc_id': 'Str', 'return': 'Bool', 't
                           '       "Str", "Str")', 'this_forgotten')],
          modifies=['zk', 'alloc', 'self.presence'], props=['C17'])
 invariant(P + '.on_delete_request', 0, 'for path in to_delete',
-          [('C17', 'foreign_untouched()'),
-           ('C17', 'forall(lambda p: implies(not was_for(self, app_name, p, rsrc_id), zk_same(p)), "Str")'),
+          [('C17', 'forall(lambda p: gone_or_same(p), "Str")'),
+           ('C17', 'forall(lambda p: implies(not was_for(self, app_name, p, rsrc_id), gone_or_same(p)), "Str")'),
            'app_name == str_fn("app_name", rsrc_id)',
            'forall(lambda j: implies(0 <= j and j < len(to_delete), was_for(self, app_name, to_delete[j], rsrc_id)), "Int")',
            'forall(lambda i, j: implies(0 <= i and i < j and j < len(to_delete), to_delete[i] != to_delete[j]), "Int", "Int")',
@@ -161,15 +200,33 @@ invariant(P + '.on_delete_request', 0, 'for path in to_delete',
 
 contract(P + '.on_create_request', types={'rsrc_id': 'Str', 'rsrc_data': 'PresenceReq', 'return': 'Opt[Dict[Str,Str]]',
                                           'app_name': 'Str'},
-         requires=['me() > 0'],
+         requires=['me() > 0'], raises=GONE_RAISE,
          ensures=[('C17', 'foreign_untouched()', 'foreign_untouched'),
                   # every node recorded for this container by this request is an ephemeral node of this session
                   ('C17', 'forall(lambda p: implies(rec(self, str_fn("app_name", rsrc_id), p) and '
                           '       not old(rec(self, str_fn("app_name", rsrc_id), p)), '
-                          '       zk_exists(p) and zk_owner(p) == me() and '
+                          '       (not zk_exists(p) or zk_owner(p) == me()) and '
                           '       self.presence[str_fn("app_name", rsrc_id)][p] == rsrc_id), "Str")', 'recorded_are_own'),
+                  # the running node of a successfully registered container is attributed to THIS container (also when
+                  # an older container of the same instance was recorded for it): the clean-up of the old one must not
+                  # find it under its own id
+                  ('C17', 'implies(result is not None, rec(self, str_fn("app_name", rsrc_id), '
+                          '        zk_path("running", str_fn("app_name", rsrc_id))) and '
+                          '        self.presence[str_fn("app_name", rsrc_id)][zk_path("running", str_fn("app_name", rsrc_id))] '
+                          '        == rsrc_id)', 'running_attributed'),
+                  ('C17', 'implies(result is not None and "endpoints" in rsrc_data, forall(lambda j: implies(0 <= j and j < len(rsrc_data["endpoints"]), '
+                          '        attributed(self, str_fn("app_name", rsrc_id), '
+                          '                   ep_path(str_fn("app_name", rsrc_id), rsrc_data["endpoints"][j]), rsrc_id)), "Int"))',
+                   'endpoints_attributed'),
+                  # every path recorded for the instance that this request (re)registered is attributed to this container:
+                  # no record of this instance names another container for a node this request made its own
+                  ('C17', 'forall(lambda p: implies(rec(self, str_fn("app_name", rsrc_id), p) and '
+                          '       self.presence[str_fn("app_name", rsrc_id)][p] != rsrc_id, '
+                          '       old(rec(self, str_fn("app_name", rsrc_id), p)) and '
+                          '       self.presence[str_fn("app_name", rsrc_id)][p] == old(self.presence[str_fn("app_name", rsrc_id)][p]) '
+                          '       and gone_or_same(p)), "Str")', 'foreign_records_untouched'),
                   # whatever this request changed in the store is now a node of this session
-                  ('C17', 'forall(lambda p: implies(not zk_same(p), zk_exists(p) and zk_owner(p) == me()), "Str")',
+                  ('C17', 'forall(lambda p: implies(not gone_or_same(p), zk_exists(p) and zk_owner(p) == me()), "Str")',
                    'changes_are_own'),
                   # records of other instances are not touched
                   ('C17', 'forall(lambda a: implies(a != str_fn("app_name", rsrc_id), (a in self.presence) == '
@@ -180,7 +237,14 @@ invariant(P + '.on_create_request', 0, "for endpoint in rsrc_data.get('endpoints
           [('C17', 'foreign_untouched()'),
            'app_name == str_fn("app_name", rsrc_id)',
            ('C17', 'forall(lambda p: implies(rec(self, app_name, p) and not old(rec(self, app_name, p)), '
-                   '       zk_exists(p) and zk_owner(p) == me() and self.presence[app_name][p] == rsrc_id), "Str")'),
-           ('C17', 'forall(lambda p: implies(not zk_same(p), zk_exists(p) and zk_owner(p) == me()), "Str")'),
+                   '       (not zk_exists(p) or zk_owner(p) == me()) and self.presence[app_name][p] == rsrc_id), "Str")'),
+           ('C17', 'forall(lambda p: implies(not gone_or_same(p), zk_exists(p) and zk_owner(p) == me()), "Str")'),
+           ('C17', 'rec(self, app_name, zk_path("running", app_name)) and '
+                   'self.presence[app_name][zk_path("running", app_name)] == rsrc_id'),
+           ('C17', 'forall(lambda j: implies(0 <= j and j < _i, attributed(self, app_name, ep_path(app_name, _seq[j]), rsrc_id)), '
+                   '       "Int")'),
+           ('C17', 'forall(lambda p: implies(rec(self, app_name, p) and self.presence[app_name][p] != rsrc_id, '
+                   '       old(rec(self, app_name, p)) and self.presence[app_name][p] == old(self.presence[app_name][p]) '
+                   '       and gone_or_same(p)), "Str")'),
            ('C17', 'forall(lambda a: implies(a != app_name, (a in self.presence) == (a in old(self.presence)) and '
                    '       self.presence[a] == old(self.presence[a])), "Str")')])
